@@ -34,6 +34,15 @@ var (
 	c10H2 = bytes.Repeat([]byte{0x44}, 20)
 )
 
+// c10Big: a 65536-byte element (c10Big[:65535] is watched separately)
+var c10Big = func() []byte {
+	b := make([]byte, 65536)
+	for i := range b {
+		b[i] = byte(i*13+i>>8) ^ 0x3d
+	}
+	return b
+}()
+
 func c10ExtOutPoint(k int) wire.OutPoint {
 	var h chainhash.Hash
 	for i := range h {
@@ -102,6 +111,20 @@ func c10OutScript(kind string) []byte {
 		return append(s, cnt, 0xae)
 	case "p2pk-65-then-K1": // an uncompressed-size key push followed by OP_CHECKSIG is pay-to-pubkey; K1 is pushed and dropped in front
 		return append(append(append(push(c10K1), 0x75), push(append([]byte{0x04}, bytes.Repeat([]byte{0x66}, 64)...))...), 0xac)
+	case "pd1-K1": // the watched key pushed with the non-minimal opcodes
+		return append([]byte{0x4c, byte(len(c10K1))}, c10K1...)
+	case "pd2-K1":
+		return append([]byte{0x4d, byte(len(c10K1)), 0}, c10K1...)
+	case "pd4-K1":
+		return append([]byte{0x4e, byte(len(c10K1)), 0, 0, 0}, c10K1...)
+	case "K1-then-truncated-pd4": // a push of K1, then OP_PUSHDATA4 announcing 65536 bytes that are not there: unparsable
+		return append(push(c10K1), 0x4e, 0x00, 0x00, 0x01, 0x00)
+	case "K1-then-truncated-pd2":
+		return append(push(c10K1), 0x4d, 0xff, 0xff)
+	case "pd4-BIG": // a 65536-byte watched element: only OP_PUSHDATA4 can carry it
+		return append([]byte{0x4e, 0x00, 0x00, 0x01, 0x00}, c10Big...)
+	case "pd2-BIG1": // 65535 bytes: the longest OP_PUSHDATA2 push
+		return append([]byte{0x4d, 0xff, 0xff}, c10Big[:65535]...)
 	case "p2pkh-U":
 		return append(append([]byte{0x76, 0xa9}, push(bytes.Repeat([]byte{0x55}, 20))...), 0x88, 0xac)
 	}
@@ -127,6 +150,12 @@ func c10In(kind string, seq int) *wire.TxIn {
 	case "sig-op0":
 		o := c10ExtOutPoint(6 + seq)
 		return wire.NewTxIn(&o, []byte{0x00, 0x51})
+	case "sig-pd4-BIG":
+		o := c10ExtOutPoint(8 + seq)
+		return wire.NewTxIn(&o, append([]byte{0x4e, 0x00, 0x00, 0x01, 0x00}, c10Big...))
+	case "sig-pd1-K1":
+		o := c10ExtOutPoint(10 + seq)
+		return wire.NewTxIn(&o, append([]byte{0x4c, byte(len(c10K1))}, c10K1...))
 	}
 	panic("unknown input kind " + kind)
 }
@@ -196,6 +225,13 @@ func c10EvalTx(w *mc.W, cas c10Tx) {
 	case "txid+K1":
 		model.Insert(rtx.TxID[:])
 		model.Insert(c10K1)
+	case "BIG":
+		model.Insert(c10Big)
+	case "BIG1":
+		model.Insert(c10Big[:65535])
+	case "K1+BIG":
+		model.Insert(c10K1)
+		model.Insert(c10Big)
 	}
 	msg := wire.NewMsgFilterLoad(model.Bytes(), k, 0x5eed, wire.BloomUpdateType(cas.Flags))
 	f := bloom.LoadFilter(msg)
@@ -617,7 +653,20 @@ func runC10(c *mc.Ctx) {
 				}
 			}
 		}
-		c.Space("single transactions with multisig outputs of 1, 3, 15, 16, 17 keys", int64(len(xs)))
+		// pushes made with OP_PUSHDATA1/2/4 (non-minimal pushes of the watched key, elements of 65535
+		// and 65536 bytes, truncated OP_PUSHDATA headers after a watched push), in outputs and inputs
+		pd := []string{"pd1-K1", "pd2-K1", "pd4-K1", "K1-then-truncated-pd4", "K1-then-truncated-pd2", "pd4-BIG", "pd2-BIG1"}
+		for _, a := range pd {
+			for _, content := range []string{"none", "K1", "BIG", "BIG1", "K1+BIG"} {
+				for _, ins := range [][]string{{"spend-E0"}, {"sig-pd4-BIG"}, {"sig-pd1-K1"}} {
+					for fl := 0; fl < 3; fl++ {
+						xs = append(xs, c10Tx{Content: content, Outs: []string{a}, Ins: ins, Flags: fl, Geom: "mid"},
+							c10Tx{Content: content, Outs: []string{"p2pkh-H2", a}, Ins: ins, Flags: fl, Geom: "mid"})
+					}
+				}
+			}
+		}
+		c.Space("single transactions with multisig outputs of 1, 3, 15, 16, 17 keys and OP_PUSHDATA1/2/4 pushes (incl. 65535/65536-byte elements)", int64(len(xs)))
 		c.ParFor(int64(len(xs)), func(w *mc.W, i int64) {
 			w.State()
 			c10EvalTx(w, xs[i])
